@@ -237,6 +237,7 @@ def config_classes():
 
 def runs_plan(tier):
     focus = [('S45#focus:%s' % f, (KEY_CONFIGS[0], KEY_CONFIGS[4]) if tier == 'quick' else tuple(KEY_CONFIGS)) for f in ('outputs', 'source', 'meta', 'attachments')]
+    focus.append(('Sprev#focus:prevmeta', (KEY_CONFIGS[0], KEY_CONFIGS[4], KEY_CONFIGS[2])))
     if tier == 'quick':
         return focus + [('S45#cellruns3', (KEY_CONFIGS[0], KEY_CONFIGS[4])), ('S45#outruns2', (KEY_CONFIGS[0], KEY_CONFIGS[4], KEY_CONFIGS[6]))]
     focus += [('S44#focus:%s' % f, (KEY_CONFIGS[0], KEY_CONFIGS[4])) for f in ('outputs', 'source', 'meta', 'attachments')]
@@ -282,7 +283,7 @@ def space(tier, parts=('a', 'b', 'runs', 'nonroot')):
             plan = [('S45', (KEY_CONFIGS[0], KEY_CONFIGS[4], KEY_CONFIGS[2])), ('Sjson', (KEY_CONFIGS[0],)),
                     ('Sv2', (KEY_CONFIGS[0], KEY_CONFIGS[4])), ('Sempty', tuple(KEY_CONFIGS))]
         else:
-            plan = [(s, tuple(KEY_CONFIGS)) for s in ('S45', 'S44', 'Ssim', 'Sjson', 'Sv0', 'Sv1', 'Sv2', 'Sv3', 'Sempty')]
+            plan = [(s, tuple(KEY_CONFIGS)) for s in ('S45', 'S44', 'Ssim', 'Sjson', 'Sprev', 'Sv0', 'Sv1', 'Sv2', 'Sv3', 'Sempty')]
         for sname, cfgs in plan:
             seed, d1 = depth1(sname)
             idx = tuple(range(len(d1)))
